@@ -220,6 +220,18 @@ class QueryPlanner:
         # projects = set()
         integrations = set()
 
+        # a reference to a CTE of this query is not a table of any database
+        # (inside the CTE bodies themselves the same name still means the real table)
+        cte_names = []
+        cte_body_nodes = set()
+        if isinstance(query, Select) and query.cte:
+            cte_names = [
+                cte.name.parts[-1]
+                for cte in query.cte
+            ]
+            for cte in query.cte:
+                query_traversal(cte.query, lambda node, **kwargs: cte_body_nodes.add(id(node)))
+
         def find_objects(node, is_table, **kwargs):
             if isinstance(node, Function):
                 if node.namespace is not None or node.op.lower() in ('llm',):
@@ -227,6 +239,8 @@ class QueryPlanner:
 
             if is_table:
                 if isinstance(node, ast.Identifier):
+                    if len(node.parts) == 1 and node.parts[0] in cte_names and id(node) not in cte_body_nodes:
+                        return
                     integration, _ = self.resolve_database_table(node)
 
                     if self.is_predictor(node):
@@ -244,11 +258,7 @@ class QueryPlanner:
         query_traversal(query, find_objects)
 
         # cte names are not mdb objects
-        if isinstance(query, Select) and query.cte:
-            cte_names = [
-                cte.name.parts[-1]
-                for cte in query.cte
-            ]
+        if cte_names:
             mdb_entities = [
                 item
                 for item in mdb_entities
